@@ -118,7 +118,15 @@ def expand_items(view, x):
     """terms denoted by a range-check style operand: a single term, or every element of a loop sequence"""
     x = P.norm(x)
     if isinstance(x, tuple) and x and x[0] == "elem":
-        return [it[1] for it in T.seq_items(x[1])], [it[0] for it in T.seq_items(x[1])]
+        seq = x[1]
+        nm = P.call_name(seq) or ""
+        if nm.endswith(("Vec::<T>::new", "Vec::<T>::with_capacity")):
+            # a vector built by appends (push / extend_from_slice) instead of a chain(..).collect(): its contents, when every append is
+            # unconditional and outside loops
+            cs = T.contents(view.effects, seq)
+            if cs and all(k in ("one", "all") and e is not None and not circ.loops_of(e) and not circ.uncond_problems(e) for k, _, e in cs):
+                return [t for _, t, _ in cs], [k for k, _, _ in cs]
+        return [it[1] for it in T.seq_items(seq)], [it[0] for it in T.seq_items(seq)]
     return [x], ["one"]
 
 
@@ -165,6 +173,40 @@ def and_leaves(t):
     if a is None:
         return [P.norm(t)]
     return and_leaves(a[0]) + and_leaves(a[1])
+
+
+def and_leaves_expanded(view, t):
+    """conjunction leaves with `_true` dropped and folds unrolled: `acc = true; for x in c { acc = and(acc, p(x)) }` over a collection
+    of known small length contributes p(c[0]) … p(c[n-1]) (the same leaves an explicit and-tree has)"""
+    nest = lc.Nest(loops=[], fallback=lc.frame_nest(view.frame))
+    out = []
+    for lf in and_leaves(t):
+        if P.const_of(lf) == 1:
+            continue
+        if isinstance(lf, tuple) and lf and lf[0] == "phi" and len(lf[2]) == 2 and any(P.const_of(m) == 1 for m in lf[2]):
+            step = [m for m in lf[2] if P.const_of(m) != 1][0]
+            sl = [P.norm(x) for x in and_leaves(step)]
+            rec = [x for x in sl if isinstance(x, tuple) and x and x[0] in ("rec", "phi")]
+            rest = [x for x in sl if not (isinstance(x, tuple) and x and x[0] in ("rec", "phi"))]
+            if len(rec) == 1 and rest:
+                done = True
+                inst = []
+                for x in rest:
+                    cx = P.norm(nest.canon(x))
+                    vs = set(s for s in T.walk(cx) if isinstance(s, tuple) and len(s) == 4 and s[0] == "lv")
+                    if len(vs) != 1:
+                        done = False
+                        break
+                    v = vs.pop()
+                    if not (v[1] == 0 and isinstance(v[2], int) and 0 < v[2] <= 16):
+                        done = False
+                        break
+                    inst += [P.norm(T.subst(cx, v, ("c", k, None))) for k in range(v[2])]
+                if done:
+                    out += inst
+                    continue
+        out.append(lf)
+    return out
 
 
 def split_indexed(t):
